@@ -12,10 +12,13 @@
 (*             messages, IXFR forms of RFC 1995) with the verdict              *)
 (*             XferOps!ClientVerdict prescribes.                               *)
 (*  "request"  the transfer request the client has to build.                   *)
+(*  "e2e"      zone contents x store x policy x AXFR / IXFR: the real client    *)
+(*             stack asks the real server; what it reports as a successful      *)
+(*             transfer has to be the whole zone.                               *)
 (* Only initial states are enumerated: one state per case.                     *)
 EXTENDS XferOps, TLC, Json
 
-CONSTANTS Family,   \* "server" | "client" | "request"
+CONSTANTS Family,   \* "server" | "client" | "request" | "e2e"
           Level     \* "quick" | "thorough"
 VARIABLE c
 
@@ -161,9 +164,19 @@ RequestCases == {[mode |-> "axfr", have |-> 0, mname |-> "ns"]}
                 \cup {[mode |-> "ixfr", have |-> hv, mname |-> mn] : hv \in {0, 5, 2147483647}, mn \in {"origin", "ns"}}
 RequestJson(x) == [kind |-> "request", mode |-> x.mode, have |-> x.have, mname |-> x.mname]
 
+(* ---- end-to-end cases -------------------------------------------------------------- *)
+\* the real client asks the real server for the zone; unsigned zones (the client never sets DO)
+E2ECases == {[shape |-> sh, store |-> st, policy |-> po, mode |-> mh[1], have |-> mh[2]] :
+                sh \in LittleShapes \cup BulkShapes \cup (IF Level = "thorough" THEN {"huge"} ELSE {}), st \in Stores,
+                po \in {"all", "deny"}, mh \in {<<"axfr", "none">>, <<"ixfr", "older">>, <<"ixfr", "same">>}}
+E2EJson(x) == [kind |-> "e2e", shape |-> x.shape, zone |-> Shape[x.shape], sign |-> "none", store |-> x.store,
+               policy |-> x.policy, others |-> FALSE, mode |-> x.mode, have |-> x.have]
+
 (* ------------------------------------------------------------------------------------ *)
 Cases == CASE Family = "server" -> ServerCases [] Family = "client" -> ClientCases [] Family = "request" -> RequestCases
+         [] Family = "e2e" -> E2ECases
 CaseJson == CASE Family = "server" -> ServerJson(c) [] Family = "client" -> ClientJson(c) [] Family = "request" -> RequestJson(c)
+            [] Family = "e2e" -> E2EJson(c)
 
 Init == c \in Cases
 Next == FALSE /\ UNCHANGED c
